@@ -70,6 +70,10 @@ CHECKS["C08"] = dict(level="exploration", ref="DESIGN.md §5 C08",
    technique="exhaustive matrix of path-taking protocol members (introspected from util/types.py) x reserved path shapes x receivers x states x drivers with raise + raw-tree-unchanged oracle; generated container histories with listing probes (keys/len/iter/values/items/get/in/visit/visititems) against the reference model after every step; enumeration of non-protocol attributes",
    text="The reserved-path matrix and the attribute enumeration are complete for their stated dimensions; the listing probes are a generated search. A harness error is raised if the protocol gains a member the matrix does not classify.",
    note=TB)
+CHECKS["C07"] = dict(level="exploration", ref="DESIGN.md §5 C07",
+   technique="model-based generated container histories with lookup and query probes after every step; brute-force query oracle over the reference model using parent chains derived from the class MRO (independent of the TOC), result sets compared in both directions; exact/ancestor lookups compared with Ancestor.parse(stored)",
+   text="Generated search over histories x (schema, version, start node) probes incl. lower/higher minor and other major versions of stored schemas and their ancestors; full probe battery after a final reopen. Multi-version unversioned lookups that the documentation lists as a limitation are counted as excluded.",
+   note=TB + "; harness schema family verif.* is discovered through real entry points (/verif/fakepkg)")
 NOT_YET = {}
 def main():
     props = [json.loads(l) for l in open(os.path.join(HERE, "properties.jsonl"))]
